@@ -401,6 +401,9 @@ func (r *c36Run) enabled(rng *verifRNG, sc c36Script, leader int) []c36Step {
 		}
 		running++
 		ok := rng.intn(100) >= sc.FailPct
+		if c.th.Last.Blocked == "prestart" {
+			ok = true // a failing PreStart is retried by pid.init with back-off: not a scheduling choice of this harness
+		}
 		st := c36Step{A: "adv", I: i, OK: ok}
 		if c.th.Last.Blocked == "members" {
 			l := leader
